@@ -14,13 +14,14 @@ import itertools
 import math
 import os
 import subprocess
+import sys
 from fractions import Fraction
 
 from lib import common as C
 
 ID = "C14"
 PROP_MODULES = ["GPVerif.Props.C14"]
-BUILD_TARGETS = ["GPVerif.Props.C14", "GPVerif.Model.Variational"]
+BUILD_TARGETS = ["GPVerif.Props.C14", "GPVerif.Model.Variational", "GPVerif.Model.Proto"]
 RULE = ("strategy x variational-distribution class x batch pattern (inducing points / parameters / data / kernel "
         "hyper-parameters) x kernel family x mean x jitter (default, 1e-10) x mode (eval: mean+full covariance+KL, "
         "train: mean+variances+KL); every batch element is one case, compared against the exact closed form; "
@@ -35,6 +36,7 @@ ASSUMPTIONS = ["linear_operator primitives (psd_safe_cholesky, triangular solve,
                "KL(Delta(m)||p) + KL(N(0,S)||p) of Jankowiak et al."]
 EXHAUSTIVE = False
 
+sys.set_int_max_str_digits(0)   # exact rationals of a few thousand digits travel between harness and driver
 PREC = 240           # bits kept when an irrational primitive is rounded to a rational
 COND_MAX = 1e7
 _state = {}
@@ -387,6 +389,52 @@ class Cmp:
         return not self.bad
 
 
+def unwhitened_prior_eps(vs):
+    """Jitter that `UnwhitenedVariationalStrategy.prior_distribution` (the eval-mode / uncached prior) adds to Kzz,
+    read from the source: `add_jitter()` -> linear_operator's default, `add_jitter(self.jitter_val)` -> jitter_val."""
+    if "unwh_eps" not in _state:
+        src = open(os.path.join(C.REPO, "gpytorch/variational/unwhitened_variational_strategy.py")).read()
+        found = None
+        for node in ast.walk(ast.parse(src)):
+            if isinstance(node, ast.FunctionDef) and node.name == "prior_distribution":
+                for c in ast.walk(node):
+                    if isinstance(c, ast.Call) and isinstance(c.func, ast.Attribute) and c.func.attr == "add_jitter":
+                        if not c.args and not c.keywords:
+                            import inspect
+                            from linear_operator.operators import LinearOperator
+                            found = float(inspect.signature(LinearOperator.add_jitter).parameters["jitter_val"].default)
+                        elif len(c.args) == 1 and ast.unparse(c.args[0]) == "self.jitter_val":
+                            found = "jitter_val"
+                        elif len(c.args) == 1 and isinstance(c.args[0], ast.Constant):
+                            found = float(c.args[0].value)
+        if found is None:
+            raise RuntimeError("UnwhitenedVariationalStrategy.prior_distribution: add_jitter call not recognised")
+        _state["unwh_eps"] = found
+    f = _state["unwh_eps"]
+    return F(vs.jitter_val) if f == "jitter_val" else F(f)
+
+
+def report_kl(ctx, cmp_, what, real, klx, kl_code, known_key, other_key, desc, replay):
+    """KL of a strategy whose prior may come from UnwhitenedVariationalStrategy.prior_distribution.
+    Passes when it equals the closed form against the matrix the predictive uses; attributed to the recorded
+    prior-jitter mismatch (known_key) only when it equals — to rounding — the closed form with the jitter the code
+    actually puts into that prior; anything else is reported under other_key."""
+    tol = cmp_.tol(max(1.0, abs(klx)))
+    err = abs(real - klx) if real == real else float("inf")
+    if err <= tol:
+        cmp_.worst = max(cmp_.worst, err / max(1.0, abs(klx)))
+        return
+    if kl_code is not None and abs(real - kl_code) <= cmp_.tol(max(1.0, abs(kl_code))):
+        ctx.fail(known_key, f"{desc}: {what} = {real!r}; closed-form KL against the matrix the predictive uses "
+                 f"(jitter_val) = {klx!r}; it equals the KL against Kzz + add_jitter() default = {kl_code!r} "
+                 "(prior_distribution and forward use different jitters)", dict(replay, observable=what))
+        ctx.count("unwhitened_prior_jitter_mismatch")
+        return
+    ctx.fail(other_key, f"{desc}: {what} = {real!r} differs from the closed-form KL {klx!r} by {err} (tolerance {tol}); "
+             f"not explained by the prior jitter (KL with the code's prior jitter: {kl_code!r})",
+             dict(replay, observable=what))
+
+
 def kl_mvn(R_, detS, detP):
     """0.5 * (rational part - log(detS/detP)) as float (mpmath log)."""
     return float((mpf(R_) - log_frac(detS) + log_frac(detP)) / 2)
@@ -549,25 +597,34 @@ def run_basic(ctx, drv, cfg, rng, replay_only=None):
             else:
                 klx = kl_delta(sc(quad), sc(detP), Mi)
             kl_train = klx
+            eps_code = unwhitened_prior_eps(vs)
+            kl_code = kl_against(drv, kzz, eps_code, m, mz, S, hasS) if eps_code != eps else None
         kscale = max([1.0] + [abs(float(v)) for row in kxx for v in row])
         # ---- eval mode
         mean, cov, _, kl, kl_before = results["eval"]
         cmp_.mat("eval.mean", [[v] for v in bget(mean, idx, 1).tolist()], fmean)
         cmp_.mat("eval.covariance", bget(cov, idx, 2).tolist(), fcov, scale=max(kscale, 1.0))
-        if hasS or not whitened or True:
+        dshort = cfg['dist'].replace('VariationalDistribution', '')
+        if whitened:
             cmp_.scalar("eval.kl", float(bget(kl, idx, 0)), klx, scale=max(1.0, abs(klx)))
             cmp_.scalar("eval.kl(before first call)", float(bget(kl_before, idx, 0)), klx, scale=max(1.0, abs(klx)))
+        else:
+            for what, t in (("eval.kl", kl), ("eval.kl(before first call)", kl_before)):
+                report_kl(ctx, cmp_, what, float(bget(t, idx, 0)), klx, kl_code,
+                          f"UnwhitenedVariationalStrategy:{dshort}/{what}[prior-jitter-mismatch]",
+                          f"UnwhitenedVariationalStrategy:{dshort}/eval.divergence-formula", desc, replay)
         # ---- train mode: mean and variances
         mean, _, var, kl, _ = results["train"]
-        if not cfg.get("x_eq_z") or whitened:
-            cmp_.mat("train.mean", [[v] for v in bget(mean, idx, 1).tolist()], fmean)
-            cmp_.mat("train.variance", [[v] for v in bget(var, idx, 1).tolist()], [[v] for v in train_var],
-                     scale=max(kscale, 1.0))
+        cmp_.mat("train.mean", [[v] for v in bget(mean, idx, 1).tolist()], fmean)
+        cmp_.mat("train.variance", [[v] for v in bget(var, idx, 1).tolist()], [[v] for v in train_var],
+                 scale=max(kscale, 1.0))
+        if whitened:
+            cmp_.scalar("train.kl", float(bget(kl, idx, 0)), kl_train, scale=max(1.0, abs(kl_train)))
         else:
-            cmp_.mat("train.mean", [[v] for v in bget(mean, idx, 1).tolist()], fmean)
-            cmp_.mat("train.variance", [[v] for v in bget(var, idx, 1).tolist()], [[v] for v in train_var],
-                     scale=max(kscale, 1.0))
-        cmp_.scalar("train.kl", float(bget(kl, idx, 0)), kl_train, scale=max(1.0, abs(kl_train)))
+            # the training-mode forward caches the jitter_val prior, except on the x == Z shortcut (no caching)
+            report_kl(ctx, cmp_, "train.kl", float(bget(kl, idx, 0)), kl_train, kl_code if cfg.get("x_eq_z") else None,
+                      f"UnwhitenedVariationalStrategy:{dshort}/train.kl[prior-jitter-mismatch]",
+                      f"UnwhitenedVariationalStrategy:{dshort}/train.divergence-formula", desc, replay)
         ok = cmp_.flush()
         ok_all = ok_all and ok
         nontriv = Mi >= 2 and n >= 2
@@ -580,6 +637,600 @@ def run_basic(ctx, drv, cfg, rng, replay_only=None):
     return ok_all
 
 
+
+# ------------------------------------------------------------------ exact q(f) of a base strategy (reused)
+
+def max_gap(pairs):
+    return max(max([abs(a - b) for ra, rb in zip(X, Y) for a, b in zip(ra, rb)] + [Fraction(0)]) for X, Y in pairs)
+
+
+def exact_whitened(ctx, drv, desc, kzz, kzx, kxx, mx, eps, epsx, m, S, hasS, root="chol"):
+    """Closed form for a whitened strategy; L = Cholesky factor (or symmetric root for CIQ) of K̃."""
+    kt = add_jit(kzz, eps)
+    L = hp_chol(kt) if root == "chol" else hp_sym_sqrt(kt)
+    Mi, n = len(m), len(mx)
+    rep = drv.ask(f"W {Mi} {n} {toks(kzz)} {toks(kzx)} {toks(kxx)} {toks(mx)} {C.rat_str(eps)} {C.rat_str(epsx)} "
+                  f"{toks(L)} {toks(m)} {toks(S)} {hasS}")
+    cmean, ccov, fmean, fcov, resid, klw, detSw, klu, detS, detKt, quadw, quadu = rep
+    if float(max_gap(((cmean, fmean), (ccov, fcov)))) > 1e-40 or float(sc(resid)) > 1e-60:
+        ctx.broke("correspondence", "model-codepath-vs-closedform", f"{desc}: resid {float(sc(resid))}")
+    if hasS:
+        kl = kl_mvn(sc(klw), sc(detSw), Fraction(1))
+    else:
+        kl = kl_delta(sc(quadw), Fraction(1), Mi)
+    return {"mean": fmean, "cov": fcov, "kl": kl, "klw": sc(klw), "detSw": sc(detSw), "quadw": sc(quadw)}
+
+
+def kl_against(drv, kzz, epsp, m, mz, S, hasS):
+    """closed-form KL( q(u) || N(mz, Kzz + epsp I) ) through the driver's generic KL kind."""
+    klr, detS, detP, quad = drv.ask(f"K {len(m)} {toks(add_jit(kzz, epsp))} {toks(m)} {toks(mz)} {toks(S)} {hasS}")
+    return kl_mvn(sc(klr), sc(detS), sc(detP)) if hasS else kl_delta(sc(quad), sc(detP), len(m))
+
+
+def exact_unwhitened(ctx, drv, desc, kzz, kzx, kxx, mx, mz, eps, epsp, m, S, R, hasS):
+    Mi, n = len(m), len(mx)
+    rep = drv.ask(f"U {Mi} {n} {len(R[0])} {toks(kzz)} {toks(kzx)} {toks(kxx)} {toks(mx)} {toks(mz)} "
+                  f"{C.rat_str(eps)} 0 {C.rat_str(epsp)} {toks(m)} {toks(R)} {toks(S)} {hasS}")
+    cmean, ccov, fmean, fcov = rep[0], rep[1], rep[2], rep[3]
+    if float(max_gap(((cmean, fmean), (ccov, fcov)))) > 1e-40:
+        ctx.broke("correspondence", "model-codepath-vs-closedform", f"{desc}")
+    klr, detS, detP, quad = rep[6], rep[7], rep[8], rep[9]
+    kl = kl_mvn(sc(klr), sc(detS), sc(detP)) if hasS else kl_delta(sc(quad), sc(detP), Mi)
+    return {"mean": fmean, "cov": fcov, "kl": kl, "trainvar": [v[0] for v in rep[5]]}
+
+
+def kappa_of(kzz, eps):
+    import numpy as np
+    return float(np.linalg.cond(np.array(fl(add_jit(kzz, eps)))))
+
+
+def col(t):
+    return [[v] for v in t.tolist()]
+
+
+def tight_ciq():
+    """Tight iterative-solver settings for CIQ (the comparison is numerical only for this strategy)."""
+    import contextlib
+    import gpytorch
+    st = contextlib.ExitStack()
+    S = gpytorch.settings
+    for cm in (S.num_contour_quadrature(60), S.minres_tolerance(1e-14), S.cg_tolerance(1e-14),
+               S.eval_cg_tolerance(1e-14), S.max_cg_iterations(4000), S.max_lanczos_quadrature_iterations(200)):
+        st.enter_context(cm)
+    return st
+
+
+# ------------------------------------------------------------------ CIQ
+
+def run_ciq(ctx, drv, cfg, rng, replay_only=None):
+    import torch
+    torch.manual_seed(rng.torch_seed())
+    pname, zb, pb, xb, kb = next(p for p in PATTERNS if p[0] == cfg["pattern"])
+    M, n, d = cfg["M"], cfg["n"], cfg["d"]
+    Z = spread_points([*zb, M, d], rng)
+    x = spread_points([*xb, n, d], rng, lo=-2.5, hi=2.5, min_dist=0.2)
+    model, dist = make_gp(dict(cfg, kb=kb), Z, cfg["dist"], pb)
+    vs = model.variational_strategy
+    randomize_hypers(model, rng)
+    vs.variational_params_initialized.fill_(1)
+    randomize_dist(dist, rng)
+    ngd = cfg["dist"] == "NaturalVariationalDistribution"
+    eps = F(vs.jitter_val)
+    res = {}
+    with tight_ciq():
+        for mode in ("eval", "train"):
+            model.train(mode == "train")
+            with torch.no_grad():
+                out = model(x)
+                res[mode] = (out.mean.detach().clone(), None if ngd else out.covariance_matrix.detach().clone(),
+                             out.variance.detach().clone(), vs.kl_divergence().detach().clone())
+    xx, Zx = expand_inputs(x, vs.inducing_points.detach())
+    Kzz, Kzx, Kxx, mX, mZ = joint_blocks(model, Zx, xx, M)
+    for idx in itertools.product(*[range(s) for s in res["eval"][0].shape[:-1]]):
+        if replay_only is not None and list(idx) != list(replay_only):
+            continue
+        kzz, kzx, kxx = (fmat(bget(t, idx, 2)) for t in (Kzz, Kzx, Kxx))
+        kzz = sym_lower(kzz)
+        mx = fcol(bget(mX, idx, 1))
+        kappa = kappa_of(kzz, eps)
+        desc = f"CiqVariationalStrategy/{cfg['dist']} pattern={pname} M={M} n={n} d={d} idx={list(idx)}"
+        if kappa > COND_MAX:
+            ctx.count("discarded_ill_conditioned")
+            continue
+        m, S, R, hasS = exact_dist(drv, dist, idx)
+        # the code adds jitter_val to Kxx twice on the non-NGD branch and once on the NGD branch
+        ex = exact_whitened(ctx, drv, desc, kzz, kzx, kxx, mx, eps, eps if ngd else 2 * eps, m, S, hasS, root="sym")
+        key = f"CiqVariationalStrategy:{cfg['dist'].replace('VariationalDistribution', '')}"
+        cmp_ = Cmp(ctx, key, desc, {"cfg": cfg, "idx": list(idx), "runner": "ciq"}, kappa, M + n)
+        cmp_.slack = max(cmp_.slack, 1e-7)       # numerical-only comparison (contour-integral quadrature)
+        kscale = max([1.0] + [abs(float(v)) for row in kxx for v in row])
+        for mode in ("eval", "train"):
+            mean, cov, var, kl = res[mode]
+            cmp_.mat(f"{mode}.mean", col(bget(mean, idx, 1)), ex["mean"])
+            if cov is not None and mode == "eval":
+                cmp_.mat(f"{mode}.covariance", bget(cov, idx, 2).tolist(), ex["cov"], scale=kscale)
+            cmp_.mat(f"{mode}.variance", col(bget(var, idx, 1)), [[ex["cov"][i][i]] for i in range(n)], scale=kscale)
+            if ngd:
+                klv = float(bget(kl, idx, 0))
+                if abs(klv - ex["kl"]) > 1e-6 * max(1.0, abs(ex["kl"])):
+                    ctx.fail("CiqVariationalStrategy:Natural/kl-forward-value",
+                             f"{desc}: kl_divergence() returns {klv} in {mode} mode; KL(q(u)||p(u)) = {ex['kl']} "
+                             "(_NgdInterpTerms.forward returns zeros for the KL)",
+                             {"cfg": cfg, "idx": list(idx), "runner": "ciq", "observable": f"{mode}.kl"})
+            else:
+                cmp_.scalar(f"{mode}.kl", float(bget(kl, idx, 0)), ex["kl"])
+        cmp_.flush()
+        ctx.case(desc + f" seed={C.seed()}", sample=None)
+        ctx.count("cases:CiqVariationalStrategy")
+        ctx.count(f"dist:{cfg['dist']}")
+        _state["worst_ciq"] = max(_state.get("worst_ciq", 0.0), cmp_.worst)
+
+
+# ------------------------------------------------------------------ batch decoupled
+
+def run_batch_decoupled(ctx, drv, cfg, rng, replay_only=None):
+    import torch
+    import gpytorch
+    torch.manual_seed(rng.torch_seed())
+    M, n, d = cfg["M"], cfg["n"], cfg["d"]
+    outer = cfg.get("outer", [])
+    kb = cfg["kb"]
+    Z = spread_points([*outer, M, d], rng)
+    x = spread_points([n, d], rng, lo=-2.5, hi=2.5, min_dist=0.2)
+    kw = {"mean_var_batch_dim": -1} if cfg.get("mvbd") else {}
+    model, dist = make_gp(dict(cfg, kb=kb, strategy="BatchDecoupledVariationalStrategy"), Z, cfg["dist"], outer, kw)
+    vs = model.variational_strategy
+    randomize_hypers(model, rng)
+    with torch.no_grad():
+        # distinct inducing sets for the mean and for the variance
+        vs.inducing_points.copy_(spread_points(list(vs.inducing_points.shape), rng))
+    vs.variational_params_initialized.fill_(1)
+    randomize_dist(dist, rng)
+    eps = F(vs.jitter_val)
+    res = {}
+    for mode in ("eval", "train"):
+        model.train(mode == "train")
+        with torch.no_grad():
+            out = model(x)
+            res[mode] = (out.mean.detach().clone(), out.covariance_matrix.detach().clone(),
+                         out.variance.detach().clone(), vs.kl_divergence().detach().clone())
+    ip = vs.inducing_points.detach()                # [..., 2, M, d]
+    xx, Zx = expand_inputs(x.unsqueeze(-3), ip)
+    Kzz, Kzx, Kxx, mX, mZ = joint_blocks(model, Zx, xx, M)   # batch [..., 2]
+    for idx in itertools.product(*[range(s) for s in res["eval"][0].shape[:-1]]):
+        if replay_only is not None and list(idx) != list(replay_only):
+            continue
+        desc = f"BatchDecoupledVariationalStrategy/{cfg['dist']} outer={outer} kb={kb} M={M} n={n} d={d} idx={list(idx)}"
+        m, S, R, hasS = exact_dist(drv, dist, idx)
+        parts = []
+        kap = 1.0
+        for which in (0, 1):
+            ii = tuple(idx) + (which,)
+            kzz, kzx, kxx = (fmat(bget(t, ii, 2)) for t in (Kzz, Kzx, Kxx))
+            kzz = sym_lower(kzz)
+            mx = fcol(bget(mX, ii, 1))
+            kap = max(kap, kappa_of(kzz, eps))
+            parts.append((kzz, kzx, kxx, mx))
+        if kap > COND_MAX:
+            ctx.count("discarded_ill_conditioned")
+            continue
+        exm = exact_whitened(ctx, drv, desc, *parts[0], eps, eps, m, S, hasS)
+        exv = exact_whitened(ctx, drv, desc, *parts[1], eps, eps, m, S, hasS)
+        mp = _mp()
+        # KL = KL(Delta(m) || N(0,I)) + KL(N(0,S) || N(0,I))
+        trS = sum(S[i][i] for i in range(M))
+        klx = float((mpf(exm["quadw"]) + M * mp.log(2 * mp.pi)) / 2 + (mpf(trS - M) - log_frac(exm["detSw"])) / 2)
+        key = f"BatchDecoupledVariationalStrategy:{cfg['dist'].replace('VariationalDistribution', '')}"
+        cmp_ = Cmp(ctx, key, desc, {"cfg": cfg, "idx": list(idx), "runner": "batch_decoupled"}, kap, M + n)
+        kscale = max([1.0] + [abs(float(v)) for row in parts[1][2] for v in row])
+        for mode in ("eval", "train"):
+            mean, cov, var, kl = res[mode]
+            cmp_.mat(f"{mode}.mean", col(bget(mean, idx, 1)), exm["mean"])
+            if mode == "eval":
+                cmp_.mat(f"{mode}.covariance", bget(cov, idx, 2).tolist(), exv["cov"], scale=kscale)
+            cmp_.mat(f"{mode}.variance", col(bget(var, idx, 1)), [[exv["cov"][i][i]] for i in range(n)], scale=kscale)
+            cmp_.scalar(f"{mode}.kl", float(bget(kl, idx, 0)), klx)
+        cmp_.flush()
+        ctx.case(desc + f" seed={C.seed()}")
+        ctx.count("cases:BatchDecoupledVariationalStrategy")
+        ctx.count(f"dist:{cfg['dist']}")
+        _state["worst"] = max(_state.get("worst", 0.0), cmp_.worst)
+
+
+# ------------------------------------------------------------------ orthogonally decoupled
+
+def run_orth(ctx, drv, cfg, rng, replay_only=None):
+    import torch
+    import gpytorch
+    V = gpytorch.variational
+    torch.manual_seed(rng.torch_seed())
+    M, Mm, n, d = cfg["M"], cfg["Mm"], cfg["n"], cfg["d"]
+    pb = cfg.get("pb", [])
+    Z = spread_points([M, d], rng)
+    Zm = spread_points([Mm, d], rng, lo=-2.2, hi=2.2, min_dist=0.3)
+    x = spread_points([n, d], rng, lo=-2.5, hi=2.5, min_dist=0.2)
+    base_cls = getattr(V, cfg["base"])
+    bdist = getattr(V, cfg["dist"])(M, batch_shape=torch.Size(pb))
+    mdist = V.DeltaVariationalDistribution(Mm, batch_shape=torch.Size(pb))
+    jkw = {} if cfg.get("jitter") is None else {"jitter_val": cfg["jitter"]}
+
+    class GP(gpytorch.models.ApproximateGP):
+        def __init__(self):
+            base = base_cls(self, Z, bdist, learn_inducing_locations=True, **jkw)
+            super().__init__(V.OrthogonallyDecoupledVariationalStrategy(base, Zm, mdist, **jkw))
+            self.mean_module = gpytorch.means.ConstantMean()
+            self.covar_module = gpytorch.kernels.ScaleKernel(gpytorch.kernels.RBFKernel() if cfg.get("kernel") != "matern"
+                                                              else gpytorch.kernels.MaternKernel(nu=2.5))
+
+        def forward(self, x):
+            return gpytorch.distributions.MultivariateNormal(self.mean_module(x), self.covar_module(x))
+
+    model = GP().double()
+    vs = model.variational_strategy
+    base = vs.base_variational_strategy
+    randomize_hypers(model, rng)
+    vs.variational_params_initialized.fill_(1)
+    base.variational_params_initialized.fill_(1)
+    randomize_dist(bdist, rng)
+    randomize_dist(mdist, rng)
+    whitened = cfg["base"] == "VariationalStrategy"
+    modes = ("eval", "train")
+    res = {}
+    for mode in modes:
+        model.train(mode == "train")
+        with torch.no_grad():
+            out = model(x)
+            res[mode] = (out.mean.detach().clone(), out.covariance_matrix.detach().clone() if mode == "eval" else None,
+                         out.variance.detach().clone(), vs.kl_divergence().detach().clone())
+    eps_b = F(base.jitter_val)
+    eps_o = F(vs.jitter_val)
+    # base q(f) at [x; Zm]
+    xz = torch.cat([x, vs.inducing_points.detach()], dim=-2)
+    Kzz, Kzx, Kxx, mX, mZ = joint_blocks(model, base.inducing_points.detach(), xz, M)
+    kzz, kzx, kxx = sym_lower(fmat(Kzz)), fmat(Kzx), fmat(Kxx)
+    mx, mz = fcol(mX), fcol(mZ)
+    kappa = kappa_of(kzz, eps_b)
+    if kappa > COND_MAX:
+        ctx.count("discarded_ill_conditioned")
+        return
+    for idx in itertools.product(*[range(s) for s in res["eval"][0].shape[:-1]]):
+        if replay_only is not None and list(idx) != list(replay_only):
+            continue
+        desc = f"OrthogonallyDecoupledVariationalStrategy(base={cfg['base']}/{cfg['dist']}) pb={pb} M={M} Mm={Mm} n={n} " \
+               f"d={d} jitter={cfg.get('jitter')} idx={list(idx)}"
+        m, S, R, hasS = exact_dist(drv, bdist, idx)
+        mm = fcol(bget(mdist.variational_mean.detach(), idx, 1))
+        if whitened:
+            exb = exact_whitened(ctx, drv, desc, kzz, kzx, kxx, mx, eps_b, eps_b, m, S, hasS)
+        else:
+            exb = exact_unwhitened(ctx, drv, desc, kzz, kzx, kxx, mx, mz, eps_b, eps_b, m, S, R, hasS)
+        mu, Cv = exb["mean"], exb["cov"]
+        mux = mu[:n]
+        Cxx = [row[:n] for row in Cv[:n]]
+        Cxz = [row[n:] for row in Cv[:n]]
+        Czz = [row[n:] for row in Cv[n:]]
+        key = f"OrthogonallyDecoupledVariationalStrategy:{'Whitened' if whitened else 'Unwhitened'}Base"
+        cmp_ = Cmp(ctx, key, desc, {"cfg": cfg, "idx": list(idx), "runner": "orth"}, kappa, M + n + Mm)
+        kscale = max([1.0] + [abs(float(v)) for row in kxx for v in row])
+        for mode in modes:
+            # eval: the prior of the mean inducing values carries jitter_val; train: the cached one carries none
+            eo = eps_o if mode == "eval" else Fraction(0)
+            fmean, fcov, extra = drv.ask(f"O {n} {Mm} {toks(mux)} {toks(Cxx)} {toks(Cxz)} {toks(Czz)} {C.rat_str(eo)} {toks(mm)}")
+            klx = exb["kl"] + float(sc(extra)) / 2
+            kl_code = None
+            if not whitened and mode == "eval":
+                ec = unwhitened_prior_eps(base)
+                if ec != eps_b:
+                    kl_code = kl_against(drv, kzz, ec, m, mz, S, hasS) \
+                        + float(sc(extra)) / 2
+            mean, cov, var, kl = res[mode]
+            if mode == "train" and not whitened:
+                # training-mode covariance of the unwhitened base has only its diagonal right (by design of that
+                # strategy); the orthogonally-decoupled mean and KL are built from its off-diagonal blocks
+                bad = []
+                rm = col(bget(mean, idx, 1))
+                if max(abs(a[0] - float(b[0])) for a, b in zip(rm, fmean)) > 1e-6:
+                    bad.append("mean")
+                if abs(float(bget(kl, idx, 0)) - klx) > 1e-6 * max(1.0, abs(klx)):
+                    bad.append("kl")
+                if bad:
+                    ctx.fail("OrthogonallyDecoupledVariationalStrategy:UnwhitenedBase/train",
+                             f"{desc}: training-mode {'/'.join(bad)} differ from the closed form "
+                             "(the unwhitened base returns a diagonal-corrected covariance in training mode)",
+                             {"cfg": cfg, "idx": list(idx), "runner": "orth", "observable": "train"})
+                cmp_.mat("train.variance", col(bget(var, idx, 1)), [[fcov[i][i]] for i in range(n)], scale=kscale)
+                continue
+            cmp_.mat(f"{mode}.mean", col(bget(mean, idx, 1)), fmean)
+            if cov is not None:
+                cmp_.mat(f"{mode}.covariance", bget(cov, idx, 2).tolist(), fcov, scale=kscale)
+            cmp_.mat(f"{mode}.variance", col(bget(var, idx, 1)), [[fcov[i][i]] for i in range(n)], scale=kscale)
+            if whitened:
+                cmp_.scalar(f"{mode}.kl", float(bget(kl, idx, 0)), klx)
+            else:
+                report_kl(ctx, cmp_, f"{mode}.kl", float(bget(kl, idx, 0)), klx, kl_code,
+                          f"UnwhitenedVariationalStrategy:base-of-OrthogonallyDecoupled/{mode}.kl[prior-jitter-mismatch]",
+                          f"OrthogonallyDecoupledVariationalStrategy:UnwhitenedBase/{mode}.divergence-formula",
+                          desc, {"cfg": cfg, "idx": list(idx), "runner": "orth"})
+        cmp_.flush()
+        ctx.case(desc + f" seed={C.seed()}")
+        ctx.count("cases:OrthogonallyDecoupledVariationalStrategy")
+        _state["worst"] = max(_state.get("worst", 0.0), cmp_.worst)
+
+
+# ------------------------------------------------------------------ grid interpolation
+
+def grid_prior_jitter():
+    """The literal jitter of GridInterpolationVariationalStrategy.prior_distribution, read from the source."""
+    src = open(os.path.join(C.REPO, "gpytorch/variational/grid_interpolation_variational_strategy.py")).read()
+    tree = ast.parse(src)
+    for node in ast.walk(tree):
+        if isinstance(node, ast.FunctionDef) and node.name == "prior_distribution":
+            for c in ast.walk(node):
+                if isinstance(c, ast.Call) and isinstance(c.func, ast.Attribute) and c.func.attr == "add_jitter":
+                    if len(c.args) == 1 and isinstance(c.args[0], ast.Constant):
+                        return float(c.args[0].value)
+                    if len(c.args) == 1 and isinstance(c.args[0], ast.Attribute) and c.args[0].attr == "jitter_val":
+                        return "jitter_val"
+                    if not c.args:
+                        return 1e-3
+    raise RuntimeError("grid prior_distribution: add_jitter call not recognised")
+
+
+def run_grid(ctx, drv, cfg, rng, replay_only=None):
+    import torch
+    import gpytorch
+    V = gpytorch.variational
+    torch.manual_seed(rng.torch_seed())
+    g, dim, n = cfg["g"], cfg["dim"], cfg["n"]
+    pb = cfg.get("pb", [])
+    M = g ** dim
+    dist = getattr(V, cfg["dist"])(M, batch_shape=torch.Size(pb))
+
+    class GP(gpytorch.models.ApproximateGP):
+        def __init__(self):
+            super().__init__(V.GridInterpolationVariationalStrategy(self, g, [(-1.0, 1.0)] * dim, dist))
+            self.mean_module = gpytorch.means.ConstantMean()
+            self.covar_module = gpytorch.kernels.ScaleKernel(gpytorch.kernels.MaternKernel(nu=2.5))
+
+        def forward(self, x):
+            return gpytorch.distributions.MultivariateNormal(self.mean_module(x), self.covar_module(x))
+
+    model = GP().double()
+    vs = model.variational_strategy
+    randomize_hypers(model, rng)
+    with torch.no_grad():
+        ls = model.covar_module.base_kernel.lengthscale
+        model.covar_module.base_kernel.lengthscale = torch.empty_like(ls).uniform_(0.25, 0.6)
+    vs.variational_params_initialized.fill_(1)
+    randomize_dist(dist, rng)
+    x = torch.tensor([[rng.uniform(-0.95, 0.95) for _ in range(dim)] for _ in range(n)], dtype=torch.float64)
+    res = {}
+    for mode in ("eval", "train"):
+        model.train(mode == "train")
+        with torch.no_grad():
+            out = model(x)
+            res[mode] = (out.mean.detach().clone(), out.covariance_matrix.detach().clone(),
+                         out.variance.detach().clone(), vs.kl_divergence().detach().clone())
+    jit = grid_prior_jitter()
+    epsp = F(vs.jitter_val if jit == "jitter_val" else jit)
+    with torch.no_grad():
+        ii, iv = vs._compute_grid(x)
+        pr = model.forward(vs.inducing_points)
+        Kzz = sym_lower(fmat(pr.lazy_covariance_matrix.to_dense()))
+        mz = fcol(pr.mean)
+    kappa = kappa_of(Kzz, epsp)
+    if kappa > COND_MAX:
+        ctx.count("discarded_ill_conditioned")
+        return
+    for idx in itertools.product(*[range(s) for s in res["eval"][0].shape[:-1]]):
+        if replay_only is not None and list(idx) != list(replay_only):
+            continue
+        desc = f"GridInterpolationVariationalStrategy/{cfg['dist']} grid={g}^{dim} n={n} pb={pb} idx={list(idx)}"
+        m, S, R, hasS = exact_dist(drv, dist, idx)
+        iib, ivb = bget(ii, idx, 2), bget(iv, idx, 2)
+        W = zeros(n, M)
+        for i in range(n):
+            for k in range(iib.shape[-1]):
+                W[i][int(iib[i, k])] += F(float(ivb[i, k]))
+        fmean, fcov = drv.ask(f"I {n} {M} {toks(W)} {toks(m)} {toks(S)}")
+        klr, detS, detP, quad = drv.ask(f"K {M} {toks(add_jit(Kzz, epsp))} {toks(m)} {toks(mz)} {toks(S)} {hasS}")
+        klx = kl_mvn(sc(klr), sc(detS), sc(detP))
+        key = f"GridInterpolationVariationalStrategy:{cfg['dist'].replace('VariationalDistribution', '')}"
+        cmp_ = Cmp(ctx, key, desc, {"cfg": cfg, "idx": list(idx), "runner": "grid"}, kappa, M + n)
+        for mode in ("eval", "train"):
+            mean, cov, var, kl = res[mode]
+            cmp_.mat(f"{mode}.mean", col(bget(mean, idx, 1)), fmean)
+            if mode == "eval":
+                cmp_.mat(f"{mode}.covariance", bget(cov, idx, 2).tolist(), fcov)
+            cmp_.mat(f"{mode}.variance", col(bget(var, idx, 1)), [[fcov[i][i]] for i in range(n)])
+            cmp_.scalar(f"{mode}.kl", float(bget(kl, idx, 0)), klx)
+        cmp_.flush()
+        ctx.case(desc + f" seed={C.seed()}")
+        ctx.count("cases:GridInterpolationVariationalStrategy")
+        ctx.count(f"dist:{cfg['dist']}")
+        _state["worst"] = max(_state.get("worst", 0.0), cmp_.worst)
+
+
+# ------------------------------------------------------------------ LMC / independent multitask
+
+def run_multitask(ctx, drv, cfg, rng, replay_only=None):
+    import torch
+    import gpytorch
+    V = gpytorch.variational
+    torch.manual_seed(rng.torch_seed())
+    kind = cfg["kind"]                       # "lmc" | "indep" | "indep-repeated"
+    Qn, Tn, M, n, d = cfg["Q"], cfg["T"], cfg["M"], cfg["n"], cfg["d"]
+    lat = [] if kind == "indep-repeated" else [Qn]
+    zb = lat if cfg.get("z_batched", True) else []
+    kb = lat if cfg.get("k_batched", True) else []
+    Z = spread_points([*zb, M, d], rng)
+    x = spread_points([n, d], rng, lo=-2.5, hi=2.5, min_dist=0.2)
+    base_cls = getattr(V, cfg["base"])
+    bdist = getattr(V, cfg["dist"])(M, batch_shape=torch.Size(lat))
+
+    class GP(gpytorch.models.ApproximateGP):
+        def __init__(self):
+            base = base_cls(self, Z, bdist, learn_inducing_locations=True)
+            if kind == "lmc":
+                vs_ = V.LMCVariationalStrategy(base, num_tasks=Tn, num_latents=Qn, latent_dim=-1)
+            else:
+                vs_ = V.IndependentMultitaskVariationalStrategy(base, num_tasks=Tn)
+            super().__init__(vs_)
+            self.mean_module = gpytorch.means.ConstantMean(batch_shape=torch.Size(kb))
+            self.covar_module = gpytorch.kernels.ScaleKernel(gpytorch.kernels.RBFKernel(batch_shape=torch.Size(kb)),
+                                                             batch_shape=torch.Size(kb))
+
+        def forward(self, x):
+            return gpytorch.distributions.MultivariateNormal(self.mean_module(x), self.covar_module(x))
+
+    model = GP().double()
+    vs = model.variational_strategy
+    base = vs.base_variational_strategy
+    randomize_hypers(model, rng)
+    base.variational_params_initialized.fill_(1)
+    randomize_dist(bdist, rng)
+    if kind == "lmc":
+        with torch.no_grad():
+            vs.lmc_coefficients.normal_()
+    tau = [rng.randrange(Tn) for _ in range(n)]
+    res = {}
+    for mode in ("eval", "train"):
+        model.train(mode == "train")
+        with torch.no_grad():
+            out = model(x)
+            if kind == "indep-repeated":
+                outi = out      # task_indices without a task batch dimension is rejected by the real code (RuntimeError)
+                ctx.count("rejected_by_real_code:indep-repeated+task_indices")
+            else:
+                outi = model(x, task_indices=torch.tensor(tau))
+            res[mode] = (out.mean.detach().clone(), out.covariance_matrix.detach().clone(), out.variance.detach().clone(),
+                         vs.kl_divergence().detach().clone(), outi.mean.detach().clone(),
+                         outi.covariance_matrix.detach().clone(), bool(getattr(out, "_interleaved", True)))
+    whitened = cfg["base"] == "VariationalStrategy"
+    eps_b = F(base.jitter_val)
+    xx, Zx = expand_inputs(x, base.inducing_points.detach())
+    Kzz, Kzx, Kxx, mX, mZ = joint_blocks(model, Zx, xx, M)
+    desc = f"{type(vs).__name__}[{kind}](base={cfg['base']}/{cfg['dist']}) Q={Qn} T={Tn} M={M} n={n} d={d} " \
+           f"z_batched={cfg.get('z_batched', True)} k_batched={cfg.get('k_batched', True)}"
+    mus, Cs, kls, kap = [], [], [], 1.0
+    kls_code = []
+    nlat = Qn if lat else 1
+    for q in range(nlat):
+        idx = (q,) if lat else ()
+        kzz, kzx, kxx = (fmat(bget(t, idx, 2)) for t in (Kzz, Kzx, Kxx))
+        kzz = sym_lower(kzz)
+        mx, mz = fcol(bget(mX, idx, 1)), fcol(bget(mZ, idx, 1))
+        kap = max(kap, kappa_of(kzz, eps_b))
+        if kap > COND_MAX:
+            ctx.count("discarded_ill_conditioned")
+            return
+        m, S, R, hasS = exact_dist(drv, bdist, idx)
+        if whitened:
+            ex = exact_whitened(ctx, drv, desc, kzz, kzx, kxx, mx, eps_b, eps_b, m, S, hasS)
+        else:
+            ex = exact_unwhitened(ctx, drv, desc, kzz, kzx, kxx, mx, mz, eps_b, eps_b, m, S, R, hasS)
+        mus.append(ex["mean"])
+        Cs.append(ex["cov"])
+        kls.append(ex["kl"])
+        if not whitened:
+            ec = unwhitened_prior_eps(base)
+            kls_code.append(kl_against(drv, kzz, ec, m, mz, S, hasS) if ec != eps_b else ex["kl"])
+    if kind == "lmc":
+        A = fmat(vs.lmc_coefficients.detach())
+        eps_l = F(vs.jitter_val)
+        mats = " ".join(toks(mu) for mu in mus) + " " + " ".join(toks(Cv) for Cv in Cs)
+        fmean, fcov = drv.ask(f"L {Qn} {n} {Tn} {C.rat_str(eps_l)} {toks(A)} {mats}")
+        imean, icov = drv.ask(f"LI {Qn} {n} {Tn} {C.rat_str(eps_l)} {toks(A)} {' '.join(map(str, tau))} {mats}")
+        klx = sum(kls)
+    else:
+        if kind == "indep-repeated":
+            mus, Cs, kls = mus * Tn, Cs * Tn, kls
+        mats = " ".join(toks(mu) for mu in mus) + " " + " ".join(toks(Cv) for Cv in Cs)
+        fmean, fcov = drv.ask(f"IN {Tn} {n} {mats}")
+        imean, icov = drv.ask(f"LI {Tn} {n} {Tn} 0 {toks(eye(Tn))} {' '.join(map(str, tau))} {mats}")
+        klx = sum(kls)
+    key = f"{type(vs).__name__}:{kind}"
+    cmp_ = Cmp(ctx, key, desc, {"cfg": cfg, "idx": [], "runner": "multitask"}, kap, M + n * Tn)
+    for mode in ("eval", "train"):
+        if mode == "train" and not whitened:
+            continue      # training-mode covariance of the unwhitened base is diagonal-only: variances only, below
+        mean, cov, var, kl, mi, ci, inter = res[mode]
+        if not inter:
+            ctx.broke("correspondence", "multitask-layout", f"{desc}: non-interleaved output")
+        cmp_.mat(f"{mode}.mean", mean.tolist(), fmean)
+        cmp_.mat(f"{mode}.covariance", cov.tolist(), fcov)
+        if kind != "indep-repeated":
+            cmp_.mat(f"{mode}.task_indices.mean", col(mi), imean)
+            cmp_.mat(f"{mode}.task_indices.covariance", ci.tolist(), icov)
+        if kl.dim() != 0:
+            cmp_.bad.append((f"{mode}.kl", "shape", list(kl.shape), []))
+        elif whitened:
+            cmp_.scalar(f"{mode}.kl", float(kl), klx)
+        else:
+            klc = sum(kls_code) if kls_code and sum(kls_code) != klx else None
+            report_kl(ctx, cmp_, f"{mode}.kl", float(kl), klx, klc,
+                      f"UnwhitenedVariationalStrategy:base-of-{type(vs).__name__}/{mode}.kl[prior-jitter-mismatch]",
+                      f"{key}/UnwhitenedBase/{mode}.divergence-formula", desc, {"cfg": cfg, "idx": [], "runner": "multitask"})
+    if not whitened:
+        mean, cov, var, kl, mi, ci, inter = res["train"]
+        cmp_.mat("train.mean", mean.tolist(), fmean)
+        cmp_.mat("train.variance", var.tolist(), [[fcov[i * Tn + t][i * Tn + t] for t in range(Tn)] for i in range(n)])
+        cmp_.scalar("train.kl", float(kl), klx)
+    cmp_.flush()
+    ctx.case(desc + f" seed={C.seed()}")
+    ctx.count(f"cases:{type(vs).__name__}")
+    _state["worst"] = max(_state.get("worst", 0.0), cmp_.worst)
+
+
+def extra_configs(ctx):
+    rng = ctx.rng("extra-configs")
+    q = ctx.quick
+    out = []
+    # CIQ
+    for dist in DISTS:
+        for pat in (["none", "Z+params"] if q else ["none", "params", "Z+params", "x-only", "kernel+params"]):
+            if q and pat == "Z+params" and dist in ("MeanFieldVariationalDistribution", "TrilNaturalVariationalDistribution"):
+                continue
+            out.append(("ciq", {"strategy": "CiqVariationalStrategy", "dist": dist, "pattern": pat, "M": rng.randint(2, 6),
+                                "n": rng.randint(2, 5), "d": rng.choice([1, 2]), "kernel": rng.choice(["rbf", "matern"]),
+                                "mean": "const", "jitter": None}))
+    # batch decoupled
+    for dist in [d_ for d_ in DISTS if d_ != "DeltaVariationalDistribution"]:
+        variants = [([], [2], False), ([], [1], False), ([], [], False), ([2], [2, 2], True)]
+        if q:
+            variants = [variants[DISTS.index(dist) % 3], variants[3]]
+        for outer, kb, mvbd in variants:
+            out.append(("batch_decoupled", {"dist": dist, "outer": outer, "kb": kb, "mvbd": mvbd, "M": rng.randint(2, 5),
+                                            "n": rng.randint(2, 5), "d": rng.choice([1, 2]),
+                                            "kernel": rng.choice(["rbf", "matern"]), "mean": "const",
+                                            "jitter": rng.choice([None, 1e-10])}))
+    # orthogonally decoupled
+    for base in ("VariationalStrategy", "UnwhitenedVariationalStrategy"):
+        for dist in (DISTS[:2] if q else [DISTS[0], DISTS[1], DISTS[3], DISTS[4]]):
+            for pb in ([[]] if q else [[], [2]]):
+                out.append(("orth", {"base": base, "dist": dist, "pb": pb, "M": rng.randint(2, 5), "Mm": rng.randint(2, 6),
+                                     "n": rng.randint(2, 5), "d": rng.choice([1, 2]), "kernel": rng.choice(["rbf", "matern"]),
+                                     "jitter": rng.choice([None, 1e-4])}))
+    # grid interpolation
+    for dist in [d_ for d_ in DISTS if d_ != "DeltaVariationalDistribution"]:
+        shapes = [(rng.randint(5, 8), 1, [])] + ([(6, 1, [2])] if not q or dist == DISTS[0] else []) \
+            + ([(4, 2, [])] if not q or dist == DISTS[1] else [])
+        for g, dim, pb in shapes:
+            out.append(("grid", {"dist": dist, "g": g, "dim": dim, "n": rng.randint(2, 5), "pb": pb}))
+    # multitask wrappers
+    for kind in ("lmc", "indep", "indep-repeated"):
+        for base in ("VariationalStrategy", "UnwhitenedVariationalStrategy"):
+            for dist in ([DISTS[0], DISTS[1]] if q else DISTS):
+                if q and ((kind != "lmc") and dist == DISTS[1]):
+                    continue
+                Qn = rng.randint(2, 3)
+                out.append(("multitask", {"kind": kind, "base": base, "dist": dist, "Q": Qn,
+                                          "T": Qn if kind == "indep" else rng.randint(2, 3), "M": rng.randint(2, 4),
+                                          "n": rng.randint(2, 3), "d": rng.choice([1, 2]),
+                                          "z_batched": rng.random() < 0.6, "k_batched": rng.random() < 0.6}))
+    return out
+
+
 def basic_configs(ctx):
     rng = ctx.rng("basic-configs")
     cfgs = []
@@ -587,10 +1238,7 @@ def basic_configs(ctx):
     for strat in ("VariationalStrategy", "UnwhitenedVariationalStrategy"):
         for dist in DISTS:
             pats = [p[0] for p in PATTERNS]
-            if quick:
-                # every pattern appears for every strategy; rotate the distribution over patterns
-                k = DISTS.index(dist)
-                pats = [p for i, p in enumerate(pats) if i % len(DISTS) == k or p in ("none", "Z+params")]
+            # quick and thorough: the full cross product strategy x distribution x batch pattern
             for pat in pats:
                 cfgs.append({"strategy": strat, "dist": dist, "pattern": pat,
                              "M": rng.randint(2, 6 if quick else 8), "n": rng.randint(2, 5 if quick else 8),
@@ -605,12 +1253,31 @@ def basic_configs(ctx):
                          "d": 2, "kernel": "rbf", "mean": "const", "jitter": 1e-10 if strat.startswith("Unwh") else None,
                          "x_eq_z": True})
     if not quick:
-        for _ in range(60):
+        for _ in range(300):
             cfgs.append({"strategy": rng.choice(["VariationalStrategy", "UnwhitenedVariationalStrategy"]),
                          "dist": rng.choice(DISTS), "pattern": rng.choice(PATTERNS)[0], "M": rng.randint(1, 8),
                          "n": rng.randint(1, 8), "d": rng.choice([1, 2, 3]), "kernel": rng.choice(["rbf", "matern"]),
                          "mean": rng.choice(["const", "linear", "zero"]), "jitter": rng.choice([None, 1e-10, 1e-4, 1e-8])})
     return cfgs
+
+
+def guarded(ctx, drv, runner, cfg):
+    """Run one configuration; an exception raised by the *real code* on a valid configuration is a failure of the
+    property on that input (driver / harness problems are re-raised and end up as a broken correspondence)."""
+    import traceback
+    try:
+        RUNNERS[runner](ctx, drv, cfg, ctx.rng(cfg["rng_label"]))
+    except DriverFail as e:
+        ctx.count("discarded_driver_fail")
+        ctx.notes.setdefault("driver_fail_examples", []).append(str(e)[:100])
+    except Exception as e:
+        tb = traceback.format_exc()
+        if "/gpytorch/" in tb or "/linear_operator/" in tb or "torch" in type(e).__module__:
+            who = cfg.get("strategy") or cfg.get("base") or runner
+            ctx.fail(f"{runner}:{who}/raises", f"{runner} {cfg}: real code raised {type(e).__name__}: {str(e)[:200]}",
+                     {"cfg": cfg, "runner": runner, "idx": None})
+        else:
+            raise
 
 
 def correspondence(ctx):
@@ -620,12 +1287,14 @@ def correspondence(ctx):
     warnings.simplefilter("ignore")
     drv = Driver("C14")
     try:
-        for i, cfg in enumerate(basic_configs(ctx)):
-            cfg["rng_label"] = f"basic:{i}"
-            run_basic(ctx, drv, cfg, ctx.rng(cfg["rng_label"]))
+        jobs = [("basic", cfg) for cfg in basic_configs(ctx)] + extra_configs(ctx)
+        for i, (runner, cfg) in enumerate(jobs):
+            cfg["rng_label"] = f"{runner}:{i}"
+            guarded(ctx, drv, runner, cfg)
     finally:
         drv.close()
     ctx.notes["worst_relative_error"] = _state.get("worst", 0.0)
+    ctx.notes["worst_relative_error_ciq"] = _state.get("worst_ciq", 0.0)
     ctx.notes["driver_requests"] = drv.n
 
 
@@ -647,4 +1316,5 @@ def replay(ctx, payload):
     return not ctx.failures
 
 
-RUNNERS = {"basic": run_basic}
+RUNNERS = {"basic": run_basic, "ciq": run_ciq, "batch_decoupled": run_batch_decoupled, "orth": run_orth,
+           "grid": run_grid, "multitask": run_multitask}
